@@ -528,7 +528,8 @@ func (bs *blockState) concat(a, b Val, ins ssa.Instruction) Val {
 	e := bs.e
 	arr := e.fresh("cat", SArr)
 	n := add(a.C[2], b.C[2])
-	bs.overflow(ins, tInt, n)
+	// the runtime refuses over-long strings; memory exhaustion is outside the model (DESIGN 2.1)
+	bs.assumeG(app("<=", n, "maxlen"))
 	q := e.freshName("k")
 	e.def(fmt.Sprintf("(forall ((%s Int)) (! (=> (and (<= 0 %s) (< %s %s)) (= (select %s %s) (select %s (+ %s %s)))) :pattern ((select %s %s))))", q, q, q, a.C[2], arr, q, a.C[0], a.C[1], q, arr, q))
 	q2 := e.freshName("k")
@@ -709,6 +710,10 @@ func (bs *blockState) next(x *ssa.Next) {
 		e.def(imp(ok, and(app("<=", "0", b0), app("<=", b0, "255"))))
 		e.def(imp(and(ok, app("<", b0, "128")), and(eq(r, b0), eq(w, "1"))))
 		e.def(imp(and(ok, app(">=", b0, "128")), and(app(">=", r, "128"), app("<=", r, "1114111"), app("<=", "1", w), app("<=", w, "4"), app("<=", add(pos, w), s.C[2]))))
+		for d := 1; d <= 3; d++ {
+			// every byte of a multi-byte sequence (or the single invalid byte) is >= 0x80
+			e.def(imp(and(ok, app(">=", b0, "128"), app(">", w, fmt.Sprint(d))), app(">=", app("select", s.C[0], add(add(s.C[1], pos), fmt.Sprint(d))), "128")))
+		}
 		e.def(imp(not(ok), and(eq(r, "0"), eq(w, "0"))))
 		np := e.fresh("it."+x.Iter.Name(), SInt)
 		e.def(eq(np, ite(ok, add(pos, w), pos)))
